@@ -70,7 +70,7 @@ def gen_binop(tree):
 
     tr = pyexpr.Translator({"left": ("left", "int"), "right": ("right", "int")},
                            attrs={"exprnode.op": ("op", "str")},
-                           calls={"self._c_div": c_div_call}, exceptions=EXC)
+                           calls={"self._c_div": c_div_call}, exceptions=EXC, checked_lshift=True)
     return tr.function("parse_constant_binop", blk.body[2:] + [last], "int")
 
 
